@@ -1,5 +1,6 @@
 import Proofs.Lemmas.Scan
 import Proofs.Lemmas.ScanMem
+import Proofs.Lemmas.ScanApprox
 /-!
 # C12 — cumulative products equal the sequential left/right fold, for every length
 
@@ -156,6 +157,85 @@ example : (List.range 5).map (cumops (α := List Nat) (· ++ ·) 5 (fun j => [j]
 example : (List.range 5).map (cumopsLeft (α := List Nat) (· ++ ·) 5 (fun j => [j])) =
     [[0], [1,0], [2,1,0], [3,2,1,0], [4,3,2,1,0]] := by decide
 example : strides 5 = [1, 2, 4] ∧ strides 8 = [1, 2, 4] ∧ strides 9 = [1, 2, 4, 8] ∧ strides 1 = [] := by decide
+
+/-! ### operations that are only approximately associative (floating-point group products)
+
+The property says "exactly" for exact monoids; for the four Lie group types the product is computed in floating point
+and is associative only up to round-off. What the doubling schedule of `cumops_` then guarantees is a theorem too:
+in any pseudo-metric `d` in which the rounded product is `Λ`-Lipschitz in each argument and associative up to `ε`
+(`ApproxAssoc`: `d (a∘c) (b∘c) ≤ Λ·d a b + δ`, same on the other side, `d ((a∘b)∘c) (a∘(b∘c)) ≤ ε`; the additive `δ` is the
+rounding of the product itself), every position of the scan stays within the computable bound `scanErr Λ ε δ L` of the
+sequential fold; for `Λ = 1` the bound is at most `rounds · 2L · (ε+δ)` with `2^rounds < 2L`. The hypotheses are
+about the rounded product of the dtype (measured by the harness on the scanned data, not proved of torch). -/
+
+/-- **Scan of an ε-associative, Λ-Lipschitz operation** stays within `scanErr Λ ε L` of the ordered fold,
+for every length and every position. -/
+theorem cumops_approx {d : α → α → ℝ} {lam eps delta : ℝ} (H : ApproxAssoc op d lam eps delta)
+    (L : Nat) (v : Nat → α) (j : Nat) (hj : j < L) :
+    d (cumops op L v j) (seg op v 0 j) ≤ scanErr lam eps delta L := by
+  unfold cumops strides scanErr
+  apply fold_strides_approx H L v L 1 v 0 (by omega)
+  · have := Nat.lt_two_pow_self (n := L); omega
+  · exact le_refl 0
+  · intro j _; unfold W; simp [seg, H.d_self]
+  · exact hj
+
+/-- closed form for a non-expansive operation: at most `rounds · L · ε` -/
+theorem cumops_approx_nonexpansive {d : α → α → ℝ} {eps delta : ℝ} (H : ApproxAssoc op d 1 eps delta)
+    (L : Nat) (v : Nat → α) (j : Nat) (hj : j < L) :
+    d (cumops op L v j) (seg op v 0 j) ≤ (strides L).length * (2 * L * (eps + delta)) := by
+  have h := cumops_approx op H L v j hj
+  have hb := errFrom_one_le eps delta H.eps_nonneg H.delta_nonneg L L 1 0 (le_refl 1) (by omega) (le_refl 0)
+  unfold scanErr at h
+  unfold strides
+  simp only [Nat.cast_one, one_mul, mul_zero, zero_add, mul_one] at hb
+  exact le_trans h hb
+
+/-- number of rounds of the schedule: `2^rounds < 2L`, i.e. `rounds ≤ ⌊log₂ L⌋ + 1` -/
+theorem strides_length (L : Nat) (hL : 1 < L) : 2 ^ (strides L).length < 2 * L := by
+  have := stridesFrom_length L L 1 (le_refl 1) hL
+  unfold strides; omega
+
+/-- with `ε = 0` the bound is `0`: the approximate theorem contains the exact one (up to `d`) -/
+theorem scanErr_zero (lam : ℝ) (L : Nat) : scanErr lam 0 0 L = 0 := by
+  have hre : ∀ m, reassoc lam 0 m = 0 := by
+    intro m; induction m with
+    | zero => rfl
+    | succ m ih => simp [reassoc, ih]
+  have : ∀ fuel p, errFrom lam 0 0 L fuel p 0 = 0 := by
+    intro fuel
+    induction fuel with
+    | zero => intro p; rfl
+    | succ fuel ih =>
+      intro p
+      unfold errFrom
+      by_cases h : p < L
+      · simp only [h, if_true]
+        have : roundErr lam 0 0 p 0 = 0 := by unfold roundErr; simp [hre]
+        rw [this]; exact ih (2*p)
+      · simp [h]
+  exact this L 1
+
+/-- non-vacuity: ANY operation (here integer subtraction, which is not associative) with the discrete metric is
+`1`-Lipschitz and `1`-associative — the hypotheses do not smuggle in associativity -/
+example : ApproxAssoc (fun a b : Int => a - b) (fun a b => if a = b then 0 else 1) 1 1 0 where
+  d_self := by intro a; simp
+  d_symm := by intro a b; by_cases h : a = b <;> simp [h, eq_comm]
+  d_tri := by
+    intro a b c
+    by_cases h1 : a = b <;> by_cases h2 : b = c <;> by_cases h3 : a = c <;> simp_all <;> norm_num
+  d_nonneg := by intro a b; by_cases h : a = b <;> simp [h]
+  one_le := le_refl 1
+  eps_nonneg := by norm_num
+  delta_nonneg := le_refl 0
+  lipL := by intro a b c; by_cases h : a = b <;> simp [h]
+  lipR := by intro a b c; by_cases h : a = b <;> simp [h]
+  assoc := by intro a b c; split <;> norm_num
+
+/-- the bound is a number one can compute: length 9 (strides 1, 2, 4, 8), `Λ = 1`, `ε = 1` gives `17 = 2·(2·(2·0+0+1)+3)+7` … ) -/
+example : scanErr 1 1 0 9 = 17 := by
+  simp [scanErr, errFrom, roundErr, reassoc]; norm_num
+
 
 end PP.Scan
 
